@@ -50,8 +50,9 @@ Fixpoint set_job (js : list job) (x : job) : list job :=
   | h :: t => if N.eqb (j_id x) (j_id h) then x :: t
               else if N.ltb (j_id x) (j_id h) then x :: js else h :: set_job t x
   end.
-Fixpoint del_job (js : list job) (id : N) : list job :=
-  match js with [] => [] | h :: t => if N.eqb id (j_id h) then t else h :: del_job t id end.
+(** [jobs.remove(&job_id)] on a map: no job with this id remains. *)
+Definition del_job (js : list job) (id : N) : list job :=
+  filter (fun j => negb (N.eqb id (j_id j))) js.
 
 Fixpoint jt_find (l : list (N * jstate)) (t : N) : option jstate :=
   match l with [] => None | (k, v) :: r => if N.eqb t k then Some v else jt_find r t end.
